@@ -1381,7 +1381,8 @@ def check_acf_case(run, c, k, impl_lines, scratch, model):
     if c.get("post") and lw_restart != lw and orows not in ("degenerate", None):
         # is the file the one of the last restart-frequency step?
         stale = acf_oracle(c, calcs[:lw_restart + 1])[0] if lw_restart is not None else None
-        if (stale is None and not irows) or (stale not in (None, "degenerate") and len(stale) == len(irows) and stale != orows
+        if (stale is None and not irows) or (stale not in (None, "degenerate") and len(stale) == len(irows)
+                                             and not all(close(a[1], b[1], 1e-6) for a, b in zip(stale, orows))
                                              and all(close(a[1], b[1], OTOL) for a, b in zip(irows, stale))):
             run.violation("acf:stale-at-end", "after the end of the run (last step %d) the correlation function file holds the "
                           "accumulators of step %s" % (calcs[lw][1], calcs[lw_restart][1] if lw_restart is not None else None), replay)
